@@ -36,7 +36,11 @@ Definition judge_c06 (g : cfg) (u : unit) (o : obs) : list N * unit :=
     | OSend p =>
       (* CONNECT with clean start / a refused v5 publish that had just been stored / CONNACK resume dropping oversize entries *)
       if k_type p =? T_CONNECT then (if k_flag p then [] else [4])
-      else if k_type p =? T_CONNACK then (if forallb (fun id => memb id (released evs)) removed then [] else [5])
+      else if k_type p =? T_CONNACK then
+        (* dropped on resume: released, and only because it is LARGER than the peer's limit (the limit is inclusive) *)
+        (if negb (forallb (fun id => memb id (released evs)) removed) then [5]
+         else if negb (forallb (fun q => negb (memb (k_pid q) removed) || (c_mps_send post <? k_size q)) (c_store pre)) then [25]
+         else [])
       else if k_type p =? T_PUBLISH then (if forallb (N.eqb (k_pid p)) removed && existsb is_error evs then [] else [6])
       else [7; k_type p]
     | ORecv _ _ =>
@@ -46,7 +50,9 @@ Definition judge_c06 (g : cfg) (u : unit) (o : obs) : list N * unit :=
         else if k_type p =? T_CONNACK then
           (* session not present / session expiry 0: emptied; session present: only oversize entries, each released *)
           (if negb (k_flag p) || (match k_sei p with Some 0 => true | _ => false end) then []
-           else if forallb (fun id => memb id (released evs)) removed then [] else [9])
+           else if negb (forallb (fun id => memb id (released evs)) removed) then [9]
+           else if negb (forallb (fun q => negb (memb (k_pid q) removed) || (c_mps_send post <? k_size q)) (c_store pre)) then [25]
+           else [])
         else if (k_type p =? T_PUBACK) || (k_type p =? T_PUBREC) || (k_type p =? T_PUBCOMP) then
           (* exactly the matching acknowledgement *)
           (match removed with
@@ -252,7 +258,11 @@ Definition judge_c13 (g : cfg) (gh : g13) (o : obs) : list N * g13 :=
             | q :: _ => (match assoc_get a rr0 with
                          | Some t => if nlist_eqb (k_topic q) t then [] else [7; a]
                          | None => [8; a] end, rr0)
-            | [] => ([], rr0)
+            | [] =>
+              (* an alias that IS bound on this connection must not be rejected as invalid *)
+              (match assoc_get a rr0 with
+               | Some _ => if memb E_TOPIC_ALIAS_INVALID (errors evs) then [12; a] else []
+               | None => [] end, rr0)
             end
           else
             (* a binding is learnt only from a packet that was accepted *)
